@@ -13,7 +13,8 @@
 (*   not have), not by itself a violation.                                 *)
 (*                                                                         *)
 (* record: [op, gen, doc, res, rows, walk, forest, errk, errrow]            *)
-(*   op  \in {"text","walk","tree"}   gen \in {"iter","slice"}             *)
+(*   op  \in {"text","walk","tree","class"}  gen \in {"iter","slice"}     *)
+(*   ("class": only the accept/reject decision and the error are logged)   *)
 (*   res \in {"ok","err"}; errk \in {"","fmt","empty","nilstack","other"}  *)
 (***************************************************************************)
 EXTENDS MdDoc, Render, Forest, TLC, Json
